@@ -53,6 +53,11 @@ def scenario_steps(rng, kind, reloads):
         for _ in range(rng.randint(1, 3)):
             st.append({"sleep": rng.choice([0.05, 0.2]), "post": rng.choice(["exclude", "down+exclude"])})
             st.append({"sleep": 0, "post": rng.choice(["put(x)", "put(y)", "backward-delete-char", "toggle-sort", "put(a)"])})
+    elif kind == "reload-race":
+        # a reload immediately followed by another query-changing action while input is still streaming in
+        add("change-query(%s)" % rng.choice(["x", "y", "a", ""]))
+        st.append({"sleep": rng.choice([0.05, 0.2]), "post": "RELOAD0"})
+        st.append({"sleep": 0, "post": rng.choice(["put(x)", "put(y)", "backward-delete-char", "toggle-sort", "put(a)"])})
     else:
         qs = ["ab", "x", "xy", "b", "a"]
         q = rng.choice(qs)
@@ -228,6 +233,7 @@ def project(trace, get, sid, cmdmap=None):
     major_input = {0: -1}
     denied, prev_denied, nth = [], None, ""
     wanted = []             # exclusions the user asked for (terminal side): must all be honoured at quiescence
+    wanted_input = -1       # the input the user asked for last (-1 = the initial one, k = reload command k)
     pending_sync_clear = False
     cfgs = []
 
@@ -297,18 +303,23 @@ def project(trace, get, sid, cmdmap=None):
             scanning_cfg = None
         elif k == "term.list":
             evs.append({"ev": "list", "res": ev_res(e), "n": e["n"], "seq": e["seq"]})
+        elif k == "term.act" and e["act"] in ("reload", "reload-sync"):
+            if e["arg"] in cmdmap:
+                wanted_input = cmdmap[e["arg"]][0]
+                wanted = []
         elif k == "term.act" and e["act"] in ("exclude", "exclude-multi"):
             # what the action excludes: the selection if there is one (exclude-multi), else the item under the cursor
             ids_ = list(e["sel"]) if (e["act"] == "exclude-multi" and e["sel"]) else ([e["cur"]] if e.get("cur", -1) >= 0 else [])
-            if e["rev"][0] == max(major_input):     # an exclusion on a list of the input currently loaded
+            if e["rev"][0] == max(major_input) and major_input[max(major_input)] == wanted_input:
+                # an exclusion on a list of the input the user last asked for
                 wanted = wanted + [i for i in ids_ if i not in wanted]
         elif k == "term.loop":
             evs.append({"ev": "query", "q": e["input"], "seq": e["seq"]})
     ids = [m["index"] for m in get["matches"]]
     inp_last = cfgs[last_cfg][0] if cfgs else -1
-    wcfg = cfg_index((inp_last, tuple(sorted(wanted, key=lambda x: wanted.index(x))), nth)) if True else last_cfg
+    wcfg = cfg_index((wanted_input, tuple(wanted), nth))
     # the order of exclusions is irrelevant for the oracle; reuse the coordinator's configuration when the sets agree
-    if cfgs and set(cfgs[last_cfg][1]) == set(wanted) and cfgs[last_cfg][2] == nth:
+    if cfgs and cfgs[last_cfg][0] == wanted_input and set(cfgs[last_cfg][1]) == set(wanted) and cfgs[last_cfg][2] == nth:
         wcfg = last_cfg
     evs.append({"ev": "end", "q": get["query"], "total": get["totalCount"], "sort": get["sort"], "getres": fnv_res(ids),
                 "matchCount": get["matchCount"], "wcfg": wcfg})
